@@ -49,7 +49,14 @@ def export_map(fn):
     pf = os.path.join(d, fn + '.full.json')
     if not (os.path.exists(p) and os.path.exists(pf)):
         os.makedirs(d, exist_ok=True)
-        mapexport.write(fn, d)
+        tmp = '%s.%d.tmp' % (d, os.getpid())          # written aside and moved in: several checks may fill the cache at the same time
+        os.makedirs(tmp, exist_ok=True)
+        try:
+            mapexport.write(fn, tmp)
+            os.replace(os.path.join(tmp, fn + '.full.json'), pf)
+            os.replace(os.path.join(tmp, fn + '.json'), p)
+        finally:
+            shutil.rmtree(tmp, ignore_errors=True)
     with open(pf) as f:
         full = json.load(f)
     return p, full
@@ -134,9 +141,10 @@ def gen_docs(fn, cap=2, maxdepth=60, timeout=1500, mode='bfs', num=200, seed=0):
             viol.append(v)
     out = {'file': fn, 'docs': docs, 'viol': viol, 'xmldiff': len(res.payloads.get('XMLDIFF', [])), 'distinct': res.distinct, 'generated': res.generated, 'depth': res.depth, 'wall': res.wall}
     os.makedirs(CACHE, exist_ok=True)
-    with open(cp + '.tmp', 'w') as f:
+    tmp = '%s.%d.tmp' % (cp, os.getpid())          # several checks may fill the cache at the same time
+    with open(tmp, 'w') as f:
         json.dump(out, f)
-    os.replace(cp + '.tmp', cp)
+    os.replace(tmp, cp)
     return out
 
 
@@ -168,12 +176,13 @@ def parse_syntax(s):
 class Concretiser(object):
     """proposes values; whether they are admissible is what the validator under test (and the specification) decide"""
 
-    def __init__(self, full, triple=('~', '*', ':'), eol='\n', fill_optional=True, rep='^', data_chars=''):
+    def __init__(self, full, triple=('~', '*', ':'), eol='\n', fill_optional=True, rep='^', data_chars='', maxlen=False):
         self.m = full
         self.nodes = {n['n']: n for n in full['nodes']}
         self.st, self.et, self.ct = triple
         self.eol = eol if triple[0] not in eol else ''
         self.fill = fill_optional
+        self.maxlen = maxlen                  # propose values of the declared MAXIMUM length (boundary of the length and format checks)
         self.rep = [c for c in (rep, '^', '%', '#', '=') if c not in triple][0]
         self.ext = mapexport.extcodes()
         self.data_chars = data_chars          # extra characters put into free-text AN values (markup, blanks ...)
@@ -213,6 +222,18 @@ class Concretiser(object):
             for c in self.ext[e['ext']]:
                 if c and mn <= len(c) <= mx and c == c.strip():
                     return c
+        if self.maxlen and not e.get('regex'):
+            if t in ('AN', 'ID'):
+                return 'A' * max(mn, min(mx, 60))
+            if t == 'DT':
+                return '20040101' if mx >= 8 else '040101'
+            if t == 'TM':
+                return '12003075' if mx >= 8 else ('120030' if mx >= 6 else '1200')
+            if t == 'R':
+                d = max(mn, min(mx, 15))
+                return '1' * (d - 1) + '.5' if d >= 2 else '1'
+            if t[0] == 'N':
+                return '1' * max(mn, min(mx, 15))
         if t == 'AN':
             base = 'A' * max(mn, 1)
             if self.data_chars and mx >= mn + len(self.data_chars) + 1 and not e.get('regex'):
@@ -510,12 +531,19 @@ MEMO_MAPS = False       # harness-side speed-up for checks that create many read
 _memo = {}
 
 
+MEMO_MAX = 4           # map objects kept per worker process (a loaded 837 is a few hundred MB of Python objects)
+
+
 def _tag_load(map_file, param, map_path=None):
     if MEMO_MAPS and (map_file, map_path) in _memo:
-        return _memo[(map_file, map_path)]
+        m = _memo.pop((map_file, map_path))
+        _memo[(map_file, map_path)] = m          # most recently used last
+        return m
     m = _orig_load(map_file, param, map_path)
     if MEMO_MAPS:
         _memo[(map_file, map_path)] = m
+        while len(_memo) > MEMO_MAX:
+            _memo.pop(next(iter(_memo)))
     try:
         m._verif_file = map_file
     except Exception:
